@@ -175,7 +175,7 @@ def rxn_case(draw):
     base = draw(reaction_case())
     base.update({'quantity': draw(st.sampled_from(['Cv', 'Cp', 'U', 'H', 'S', 'F', 'G', 'E'])),
                  'unit': draw(st.sampled_from(R_KEYS)), 'form': draw(st.sampled_from(['state', 'delta', 'delta', 'act'])),
-                 'rev': draw(st.booleans()), 'act': draw(st.booleans()),
+                 'rev': draw(st.booleans()), 'act': draw(st.booleans()), 'del_m': draw(st.sampled_from(['default', 0, None, -1, 1])),
                  'state': draw(st.sampled_from(['reactants', 'products', 'transition state']))})
     return base
 
@@ -228,8 +228,10 @@ def _check_rxn_q(case, ctx, rxn, sp, drawn):
         if not hasattr(rxn, 'get_%s_act' % q):
             return            # (no activation form of this quantity)
         if q == 'E':
-            dim = rxn.get_E_act(units=arg_u, rev=case['rev'], **kw)
-            base = rxn.get_EoRT_act(rev=case['rev'], **kw)
+            # the molecularity option of the Arrhenius energy acts on both forms (documented values: 1 default, 0, -1, None)
+            opt = {} if case.get('del_m', 'default') == 'default' else {'del_m': case['del_m']}
+            dim = rxn.get_E_act(units=arg_u, rev=case['rev'], **opt, **kw)
+            base = rxn.get_EoRT_act(rev=case['rev'], **opt, **kw)
         else:
             dim = getattr(rxn, 'get_%s_act' % q)(units=arg_u, rev=case['rev'], **kw)
             base = getattr(rxn, 'get_%s_act' % dimless[4:])(rev=case['rev'], **kw)
